@@ -9,6 +9,7 @@ import Ladim.Model.Analytical
 import Ladim.Model.Release
 import Ladim.Driver.RunOp
 import Ladim.Model.Validate
+import Ladim.Model.Config
 /-
 Line-protocol driver: one JSON request per input line, one JSON response per output line.
 It only *runs* the executable model definitions of `Ladim.Model.*`; it contains no logic of
@@ -480,11 +481,40 @@ def opValidate (j : Json) : R Json := do
   | .ok () => pure (Json.mkObj [("ok", .bool true)])
   | .error (e, st) => pure (Json.mkObj [("error", .str e.toString), ("stage", .str (stageName st))])
 
+/-! ### C18: configuration -/
+
+partial def jsonToCfg (j : Json) : Cfg :=
+  match j with
+  | .null => .null
+  | .bool b => .bool b
+  | .num n => .num (mkRat n.mantissa (10 ^ n.exponent))
+  | .str s => .str s
+  | .arr a => .list (a.toList.map jsonToCfg)
+  | .obj o => .dict (o.toList.map (fun (k, v) => (k, jsonToCfg v)))
+
+partial def cfgToJson (c : Cfg) : Json :=
+  match c with
+  | .null => .null
+  | .bool b => .bool b
+  | .num q => ratJ q
+  | .str s => .str s
+  | .list l => .arr (l.map cfgToJson).toArray
+  | .dict l => Json.mkObj (l.map (fun (k, v) => (k, cfgToJson v)))
+
+def opConfigure (j : Json) : R Json := do
+  let tree := jsonToCfg (← fld j "config")
+  let globs ← getObjPairs (← fld j "glob")
+  let table ← globs.mapM (fun (k, v) => do pure (k, ← getList (fun x => x.getStr?) v))
+  let glob (pat : String) : List String := (table.lookup pat).getD []
+  match configure glob tree with
+  | .ok c => pure (Json.mkObj [("ok", cfgToJson c)])
+  | .error e => pure (Json.mkObj [("error", .str e)])
+
 def handlers : List (String × (Json → R Json)) :=
   [("tk", opTk), ("period", opPeriod), ("state", opState), ("outrun", opOutRun), ("genname", opGenName),
    ("forcing", opForcing), ("z2s", opZ2s), ("sdepth", opSdepth), ("sstretch", opSstretch),
    ("sample", opSample), ("grid", opGrid), ("sample2d", opSample2D), ("bilininv", opBilinInv),
-   ("tracker", opTracker), ("roms_sample", opRomsSample), ("diffdisp", opDiffDisp), ("analytical", opAnalytical), ("release", opRelease), ("run", opRun), ("validate", opValidate)]
+   ("tracker", opTracker), ("roms_sample", opRomsSample), ("diffdisp", opDiffDisp), ("analytical", opAnalytical), ("release", opRelease), ("run", opRun), ("validate", opValidate), ("configure", opConfigure)]
 
 def handle (line : String) : String :=
   match Json.parse line with
